@@ -187,6 +187,11 @@ func (o *orC10) atEnd() {
 		perm := permanentErrnos[sv.LastSQLErrno] || permanentErrnos[sv.LastIOErrno] || permanentErrnos[sv.StickySQLErr] || permanentErrnos[sv.StickyIOErr]
 		exhausted := sv.StickySQLErr != 0 || sv.StickyIOErr != 0 // error recurs whatever is tried: attempts get exhausted
 		replicating := sv.HasChannel && sv.Source == master && sv.IORun && !sv.IOConnecting && sv.SQLRun
+		// whatever the state of its threads, a replica is pointed at the recorded master
+		if sv.HasChannel && sv.Source != master && !m.recovery[sv.Name] {
+			probs = append(probs, fmt.Sprintf("%s not a running replica of %s (src=%s io=%v sql=%v ioerr=%d sqlerr=%d)", sv.Name, master, sv.Source, sv.IORun && !sv.IOConnecting, sv.SQLRun, sv.LastIOErrno, sv.LastSQLErrno))
+			continue
+		}
 		if replicating || perm || exhausted {
 			continue
 		}
